@@ -519,7 +519,12 @@ func (st *AclState) applyInviteChange(ch *aclrecordproto.AclAccountInviteChange,
 	if err != nil {
 		return err
 	}
-	invite := st.invites[ch.InviteRecordId]
+	invite, exists := st.invites[ch.InviteRecordId]
+	if !exists {
+		// reachable only when content validation is off (non-validating verifier); storing the
+		// zero Invite would leave an entry with a nil key behind
+		return ErrNoSuchInvite
+	}
 	invite.Permissions = AclPermissions(ch.Permissions)
 	st.invites[ch.InviteRecordId] = invite
 	return nil
